@@ -489,7 +489,8 @@ PROPS = {
                      "Xet.Shard.C11_flush_mem_empty",
                      "Xet.Dedup.C11_defrag_warmup", "Xet.Dedup.C11_defrag_long_run_accepted", "Xet.Dedup.C11_defrag_short_run_rejected",
                      "Xet.Dedup.C11_repeat_free", "Xet.Dedup.C11_repeat_free_real_estimator", "Xet.Dedup.C11_repeat_free_no_defrag",
-                     "Xet.Dedup.C11_repeat_needs_answers", "Xet.Dedup.firstPass_covered", "Xet.Dedup.C11_repeat_free_lookup"],
+                     "Xet.Dedup.C11_repeat_needs_answers", "Xet.Dedup.firstPass_covered", "Xet.Dedup.C11_repeat_free_lookup",
+                     "Xet.Dedup.firstPass_id_of_covered", "Xet.Dedup.C11_repeat_free_lookup_two_pass"],
         "suites": ["session", "manager", "session_conc", "deduper"],
         "level_text": "For every history, legal or not: every xorb handed to the store (cut mid-file or from the session aggregator, incl. the final "
                       "one) has its CAS info registered with the session shard, and every chunk of it is in that info. Lookup completeness of ShardFileManager "
